@@ -77,7 +77,7 @@ theorem eq_push_length (q : EQ) (a : Act) : (q.push a).events.length ≤ q.event
 
 def absContent (c : List (Nat × Nat)) : KMap := fun k => (alGet c k).map (fun v => [v])
 
-theorem alGet_insertSorted (k v : Nat) : ∀ (c : List (Nat × Nat)) (x : Nat),
+theorem alGet_insertSorted_eq (k v : Nat) : ∀ (c : List (Nat × Nat)) (x : Nat),
     alGet (insertSorted k v c) x = if k = x then some v else alGet c x := by
   intro c
   induction c with
@@ -101,7 +101,7 @@ theorem alGet_insertSorted (k v : Nat) : ∀ (c : List (Nat × Nat)) (x : Nat),
 theorem absContent_insert (c : List (Nat × Nat)) (k v : Nat) :
     absContent (insertSorted k v c) = setKey (absContent c) k (some [v]) := by
   funext x
-  simp only [absContent, setKey, alGet_insertSorted]
+  simp only [absContent, setKey, alGet_insertSorted_eq]
   by_cases hx : k = x
   · subst hx; simp
   · have : ¬ x = k := fun h => hx h.symm
